@@ -158,6 +158,8 @@ const (
 type loopCtx struct {
 	l  *mapLoop
 	sm *summarizer
+	// what called functions write (roots in this function), for the read-after-write check
+	callWritten []ssa.Value
 }
 
 // classOf: where does the memory designated by v live, relative to loop l?
@@ -395,6 +397,48 @@ func (c *loopCtx) analyse(p *Prog) {
 		}
 		c.classifyCarry(p, phi)
 	}
+	// a map that called functions write (under whatever key, constants included) and that the
+	// loop body reads: what is read depends on which entries were visited before
+	if len(c.callWritten) > 0 {
+		sameMap := func(read, written ssa.Value) bool {
+			if sameSlice(read, written) {
+				return true
+			}
+			for _, rt := range valueRoots(read) {
+				if rt == written {
+					return true
+				}
+			}
+			// load of a captured cell
+			if u, ok := read.(*ssa.UnOp); ok && u.X == written {
+				return true
+			}
+			return false
+		}
+		for _, b := range bodyBlocks {
+			for _, in := range b.Instrs {
+				lk, ok := in.(*ssa.Lookup)
+				if !ok {
+					continue
+				}
+				if _, isMap := lk.X.Type().Underlying().(*types.Map); !isMap {
+					continue
+				}
+				for _, w := range c.callWritten {
+					if _, isMapW := w.Type().Underlying().(*types.Map); !isMapW {
+						if pt, isPtr := w.Type().Underlying().(*types.Pointer); !isPtr {
+							continue
+						} else if _, isMapP := pt.Elem().Underlying().(*types.Map); !isMapP {
+							continue
+						}
+					}
+					if sameMap(lk.X, w) {
+						l.kind("MAPREAD:map-written-by-callee", p.ipos(lk))
+					}
+				}
+			}
+		}
+	}
 }
 
 func (c *loopCtx) classifyStore(p *Prog, st *ssa.Store) {
@@ -542,6 +586,9 @@ func (c *loopCtx) classifyCall(p *Prog, ci ssa.CallInstruction) {
 	c.sm.applyCall(l.Fn, ci,
 		func(v ssa.Value, name string, constSet string) {
 			cls := c.classOf(v)
+			if _, isB := ci.Common().Value.(*ssa.Builtin); !isB {
+				c.callWritten = append(c.callWritten, v)
+			}
 			if constSet != "" {
 				if al, ok := v.(*ssa.Alloc); (ok && !l.Body[al.Block()]) || cls[clsOuter] {
 					l.constVals[constSet] = true
@@ -722,7 +769,7 @@ func (c *loopCtx) unsafeKinds(p *Prog) []string {
 }
 
 func checkC16(p *Prog, r *Report) {
-	r.rule("R16.1", "Every `range` over a map in production code (enumerated on go/ssa: Range instructions with a map operand) has only order-insensitive effects: stores through the ranged element (ELEMSTORE, CALLWRITE:elem), stores into an outer map keyed by the range key or storing a constant (MAPSTORE:keyed/constval), deletes keyed by the range key, counters, constant flags, collect-then-sort appends, existential search exits carrying only constants, per-element aborts without other writes. Effects of called functions come from inter-procedural write/emit summaries. Any other kind (EMIT:Warning/Info/print, EXIT:value, CARRY:value, CARRY:append, MAPSTORE:other, MAPREAD:other-entry-of-written-map — a lookup, under a key other than the range key, in a map the loop also writes —, OUTERSTORE, CALLWRITE:outer/global) must be permitted by a row of tables/maprange.tsv keyed by function + map; a row relaxes named kinds only, so a new effect inside an exempted loop is still reported.")
+	r.rule("R16.1", "Every `range` over a map in production code (enumerated on go/ssa: Range instructions with a map operand) has only order-insensitive effects: stores through the ranged element (ELEMSTORE, CALLWRITE:elem), stores into an outer map keyed by the range key or storing a constant (MAPSTORE:keyed/constval), deletes keyed by the range key, counters, constant flags, collect-then-sort appends, existential search exits carrying only constants, per-element aborts without other writes. Effects of called functions come from inter-procedural write/emit summaries. Any other kind (EMIT:Warning/Info/print, EXIT:value, CARRY:value, CARRY:append, MAPSTORE:other, MAPREAD:other-entry-of-written-map — a lookup, under a key other than the range key, in a map the loop also writes —, MAPREAD:map-written-by-callee — a lookup in a map that a function called in the loop writes —, OUTERSTORE, CALLWRITE:outer/global) must be permitted by a row of tables/maprange.tsv keyed by function + map; a row relaxes named kinds only, so a new effect inside an exempted loop is still reported.")
 	sm := newSummarizer(p)
 	loops := findMapLoops(p)
 	r.floor("R16.1", "map range loops enumerated", len(loops), 30)
